@@ -38,6 +38,7 @@ def main():
     sel = sys.argv[1:]
     regs = registered()
     results = []
+    rules_fired = {}
     for m in MUTANTS:
         if sel and not any(x in m["name"] for x in sel):
             continue
@@ -56,6 +57,11 @@ def main():
             p = subprocess.run([os.path.join(VERIF, "check"), c], cwd=VERIF, env=env, stdout=subprocess.PIPE, stderr=subprocess.PIPE, text=True)
             if p.returncode == 1 and "VIOLATION" in p.stdout:
                 fired.append(c)
+                try:
+                    for v in json.load(open(os.path.join(VERIF, "evidence", "violations", c + ".json"))):
+                        rules_fired.setdefault(c + ":" + v["rule"], []).append(m["name"])
+                except Exception:
+                    pass
             elif p.returncode != 0:
                 broken.append((c, p.returncode, p.stderr[-300:]))
         shutil.rmtree(root, ignore_errors=True)
@@ -68,6 +74,9 @@ def main():
             status += " BROKEN " + str(broken)
         print("%-44s %-10s fired=%s %s" % (m["name"], m["kind"], ",".join(fired), status), flush=True)
         results.append((m["name"], status))
+    if not sel:
+        json.dump({"results": results, "rules_fired": {k: sorted(set(v)) for k, v in sorted(rules_fired.items())}},
+                  open(os.path.join(HERE, "last_run.json"), "w"), indent=1)
     bad = [r for r in results if not r[1].startswith("OK")]
     print("%d edits, %d not as expected" % (len(results), len(bad)))
     # restore evidence of the real tree is the caller's business (checks rewrite evidence on every run)
